@@ -59,8 +59,12 @@ class Verdict:
 
 
 class Phase:
-    def __init__(self, name, strategy=None, enum=None, examples=(0, 0), exhaustive=False, note=""):
+    def __init__(self, name, strategy=None, enum=None, examples=(0, 0), exhaustive=False, note="",
+                 machine=None, minimise=None, steps=12):
         self.name = name
+        self.machine = machine        # callable(sink) -> RuleBasedStateMachine subclass (stateful generation)
+        self.minimise = minimise      # callable(case, sig) -> smaller failing case (for machine phases)
+        self.steps = steps
         self.strategy = strategy      # Hypothesis strategy (callable returning one, evaluated lazily)
         self.enum = enum              # callable -> iterable of cases
         self.examples = examples      # (quick total, thorough total) for strategies
@@ -173,12 +177,19 @@ def merge(parts):
 
 
 # ----------------------------------------------------------------------------- running
-def _settings(n, shrink):
+def _settings(n, shrink, **extra):
     from hypothesis import HealthCheck, Phase as HPhase, settings
     phases = [HPhase.generate] + ([HPhase.shrink] if shrink else [])
     return settings(max_examples=max(1, n), database=None, deadline=None, derandomize=False,
                     report_multiple_bugs=False, suppress_health_check=list(HealthCheck),
-                    phases=phases, print_blob=False)
+                    phases=phases, print_blob=False, **extra)
+
+
+def run_machine(factory, n, hseed, sink, steps):
+    import hypothesis
+    from hypothesis.stateful import run_state_machine_as_test
+    machine = hypothesis.seed(hseed)(factory(sink))
+    run_state_machine_as_test(machine, settings=_settings(n, False, stateful_step_count=steps))
 
 
 def shard_seed(seed, shard, phase_idx):
@@ -213,6 +224,11 @@ def run_shard(args):
                 n = total // nshards + (1 if shard < total % nshards else 0)
                 if n <= 0:
                     continue
+                if ph.machine is not None:
+                    def sink(case, v, ph=ph):
+                        stats.add(mod, ph.name, shard, case, v)
+                    run_machine(ph.machine, n, shard_seed(seed, shard, pi), sink, ph.steps)
+                    continue
 
                 def fn(case, ph=ph):
                     stats.add(mod, ph.name, shard, case, mod.check_case(case))
@@ -237,6 +253,14 @@ def shrink_failure(mod, tier, seed, nshards, rec, sig, budget_s):
     ph = phases[pi]
     best = dict(case=codec.dec(rec["case"]), detail=rec["detail"], size=rec["size"])
     if ph.enum is not None:
+        return best["case"], best["detail"]
+    if ph.machine is not None:
+        if ph.minimise is not None:
+            small = ph.minimise(best["case"], sig)
+            v = mod.check_case(small)
+            for f in v.fails:
+                if f.sig == sig:
+                    return small, f.detail
         return best["case"], best["detail"]
     shard = rec["shard"]
     total = ph.examples[0] if tier == "quick" else ph.examples[1]
@@ -380,7 +404,8 @@ def run(prop_id, tier, seed, nshards=None):
         samples=tot["samples"],
         classes=dict(sorted(tot["classes"].items())),
         phases=dict({p.name: dict(cases=tot["phase_counts"].get(p.name, 0), exhaustive=p.exhaustive,
-                                  kind="enumerated" if p.enum is not None else "hypothesis", note=p.note)
+                                  kind="enumerated" if p.enum is not None else
+                                  ("hypothesis-stateful" if p.machine is not None else "hypothesis"), note=p.note)
                      for p in phases},
                     **{k: dict(cases=c, kind="replayed files") for k, c in tot["phase_counts"].items()
                        if k in ("regression-replays", "known-finding-replay")}),
@@ -406,6 +431,12 @@ def run(prop_id, tier, seed, nshards=None):
           f"{len(tot['nontrivial'])} distinct non-trivial, {len(violations)} violation signature(s), "
           f"{sum(tot['known'].values())} known-finding match(es), "
           f"{sum(tot['inconclusive'].values())} inconclusive, {wall:.1f}s")
+    for v in violations:
+        print(f"  {v['clause']}: {v['detail'][:600]}  [{v['count']} case(s)]")
+        print(f"VIOLATION property={prop_id} replay={v['replay']}")
+    if violations:
+        return 1
+    # generator-quality floors only matter for a run that claims the property held
     if tot["evaluations"] == 0 or len(tot["nontrivial"]) < 2:
         raise HarnessError("the run explored no non-trivial cases: generator problem")
     floors = getattr(mod, "CLASS_FLOORS", {})
@@ -413,9 +444,6 @@ def run(prop_id, tier, seed, nshards=None):
         if tot["classes"].get(cname, 0) < frac * tot["evaluations"]:
             raise HarnessError(f"generator floor missed: class {cname!r} = {tot['classes'].get(cname, 0)} "
                                f"of {tot['evaluations']} cases (< {frac:.0%})")
-    for v in violations:
-        print(f"  {v['clause']}: {v['detail'][:600]}  [{v['count']} case(s)]")
-        print(f"VIOLATION property={prop_id} replay={v['replay']}")
     return 1 if violations else 0
 
 
